@@ -42,7 +42,7 @@ ASSUMPTIONS = [
 CLASSES = ["conserve/whfast", "conserve/saba", "conserve/eos", "conserve/leapfrog", "conserve/janus", "conserve/ias15",
            "conserve/bs", "conserve/mercurius", "conserve/trace", "conserve/deferred_sync", "conserve/boost",
            "conserve/backward", "merge/mergers=0", "merge/mergers=1", "merge/mergers=2", "merge/mergers>=3",
-           "diagnostics/zero_mass", "diagnostics/all_massless"]
+           "diagnostics/zero_mass", "diagnostics/all_massless", "mirror/ias15", "mirror/bs", "mirror/bitwise_mirror"]
 
 EPS = 2.0 ** -52
 
@@ -682,10 +682,109 @@ def run_diag(case, ctx):
         ctx.cls("all_massless")
 
 
+# ---------------------------------------------------------------------------------------------
+# sub-check "mirror": the adaptive schemes are as accurate backward in time as forward
+
+@st.composite
+def eccentric_system(draw):
+    """Star + eccentric inner planet (e 0.3-0.8: the adaptive step varies by a factor (1+e)^1.5/(1-e)^1.5 along
+    the orbit, so the controller grows and shrinks it all the time) + outer planet beyond 2.5-4 apocentre distances."""
+    Gv = draw(st.sampled_from(S.G_VALUES))
+    m0 = draw(st.sampled_from([1.0, 0.5, 2.0]))
+    a1 = draw(S.floats(0.6, 1.6))
+    e1 = draw(S.floats(0.3, 0.8))
+    e2 = draw(S.floats(0.0, 0.3))
+    a2 = a1 * (1 + e1) * draw(S.floats(2.5, 4.0)) / (1 - e2)
+    m1 = draw(S.logfloats(1e-7, 1e-3)) * m0
+    m2 = draw(S.logfloats(1e-7, 1e-3)) * m0
+    parts = [{"m": m0, "x": 0.0, "y": 0.0, "z": 0.0, "vx": 0.0, "vy": 0.0, "vz": 0.0}]
+    for m, a, e, inc in ((m1, a1, e1, 0.0), (m2, a2, e2, draw(S.floats(0.0, 0.3)))):
+        sv = S.el2cart(Gv * (m0 + m), a, e, inc, draw(S.angles), draw(S.angles), draw(S.angles))
+        parts.append({"m": m, "x": sv[0], "y": sv[1], "z": sv[2], "vx": sv[3], "vy": sv[4], "vz": sv[5]})
+    M = sum(p["m"] for p in parts)
+    for key in ("x", "y", "z", "vx", "vy", "vz"):
+        cc = sum(p["m"] * p[key] for p in parts) / M
+        for p in parts:
+            p[key] -= cc
+    P = 2 * math.pi * math.sqrt(a1 ** 3 / (Gv * m0))
+    return {"G": Gv, "particles": parts, "P_min": P, "P_max": P * (a2 / a1) ** 1.5}
+
+
+mirror_cfg = st.one_of(
+    st.builds(lambda mode, eps: {"integrator": "ias15", "set": [["ri_ias15.adaptive_mode", mode], ["ri_ias15.epsilon", eps]],
+                                 "family": "ias15", "fixed_step": False},
+              st.sampled_from([1, 2, 2, 3]), st.sampled_from([1e-9, 1e-9, 1e-7])),
+    S.bs_config())
+
+mirror_case = st.fixed_dictionaries({
+    "system": eccentric_system(), "cfg": mirror_cfg,
+    "orbits": S.floats(2.0, 6.0), "dt_frac": S.logfloats(1e-3, 0.03),
+})
+
+
+def run_mirror(case, ctx):
+    """Newtonian gravity is time-reversal symmetric: the run of the velocity-flipped system towards -T is the mirror
+    image of the forward run towards +T.  The forward run (held to its accuracy class by 'conserve') is therefore an
+    independent yardstick for the backward one: its energy and angular-momentum errors may not be more than 20x
+    larger (plus a rounding floor of 8 eps sqrt(steps) sum|terms|).  On the unchanged tree the two runs are bitwise
+    mirror images (recorded as class 'bitwise_mirror', not asserted)."""
+    import numpy as np
+    from .. import rb
+    from ..oracles import c04_invariants as inv
+    rb.quiet()
+    sysd = case["system"]
+    cfg = case["cfg"]
+    fam = cfg["family"]
+    T = case["orbits"] * sysd["P_min"]
+    res = []
+    for sign in (1.0, -1.0):
+        parts = sysd["particles"]
+        if sign < 0:
+            parts = [dict(p, vx=-p["vx"], vy=-p["vy"], vz=-p["vz"]) for p in parts]
+        sim = rb.new_sim({"G": sysd["G"], "particles": parts})
+        apply_cfg(sim, cfg)
+        sim.dt = sign * case["dt_frac"] * sysd["P_min"]
+        budget = [int(4000 * case["orbits"]) + 4000]
+
+        def limiter(p):
+            budget[0] -= 1
+            if budget[0] < 0:
+                sim.stop()
+        sim.heartbeat = limiter
+        i0 = inv.invariants(inv.parr(sim), sim.G)
+        wE = wL = 0.0
+        for k in range(1, 9):
+            sim.integrate(sign * T * k / 8, exact_finish_time=0)
+            if budget[0] < 0:
+                ctx.skip("adaptive step collapsed")
+                return
+            i1 = inv.invariants(inv.parr(sim), sim.G)
+            wE = max(wE, abs(float(i1["E"] - i0["E"])) / float(i0["Esc"]))
+            wL = max(wL, vmax(i1["L"] - i0["L"]) / float(i0["Lsc"]))
+        res.append((wE, wL, sim.steps_done, inv.parr(sim), sim.t))
+    (fE, fL, fn, fa, ft), (bE, bL, bn, ba, bt) = res
+    ctx.cls(fam)
+    if fa[:, 0:3].tobytes() == ba[:, 0:3].tobytes() and fa[:, 3:6].tobytes() == (-ba[:, 3:6]).tobytes() and ft == -bt:
+        ctx.cls("bitwise_mirror")
+    ctx.stat_max("steps_ratio[%s]" % fam, max(bn / fn, fn / bn))
+    floor = 8 * EPS * math.sqrt(max(fn, bn))
+    ctx.stat_max("bwd_over_fwd_E[%s]" % fam, bE / (20 * fE + floor))
+    ctx.stat_max("bwd_over_fwd_L[%s]" % fam, bL / (20 * fL + floor))
+    if min(fn, bn) >= 30:
+        ctx.nontrivial()
+    if bE > 20 * fE + floor:
+        raise Violation("%s backward in time: max|dE|/sum|terms| = %.3e over %d steps; the mirror-image forward run "
+                        "has %.3e over %d steps (allowed 20x + %.1e)" % (fam, bE, bn, fE, fn, floor))
+    if bL > 20 * fL + floor:
+        raise Violation("%s backward in time: max|dL|/sum m|x||v| = %.3e over %d steps; the mirror-image forward run "
+                        "has %.3e over %d steps (allowed 20x + %.1e)" % (fam, bL, bn, fL, fn, floor))
+
+
 def subs(tier):
     out = [
         Sub("conserve", run_conserve, strategy=conserve_case, quick=2000, thorough=40000, shards_quick=8, shards_thorough=16),
         Sub("merge", run_merge, strategy=merge_case, quick=600, thorough=40000, shards_quick=4, shards_thorough=16),
+        Sub("mirror", run_mirror, strategy=mirror_case, quick=320, thorough=12000, shards_quick=4, shards_thorough=16),
         Sub("diagnostics", run_diag, strategy=diag_case, quick=3000, thorough=200000, shards_quick=2, shards_thorough=8),
     ]
     return out
